@@ -22,10 +22,16 @@ func main() {
 		"non-trivial = a history whose answers differ in version or capabilities. " +
 		"concurrent: 16 goroutines x 600 handshakes behind a common gate straight into the streamable handler (stateful / stateless / sessions off, fresh session each), 8 stdio connections x 150 pipelined initializes, 8 raw SSE connections x 64 " +
 		"against one server with a prompt and a resource registered (every answer must advertise both) and one with none (never); thorough = 10 rounds; non-trivial = an answer of a server with registrations. " +
+		"filtered: the server histories (8 subsets x 6 initializes, every pair of registrations between initializes, seeded random ones) on streamable (3 session modes, JSON / SSE answers) and legacy SSE servers configured with tool + prompt + resource list filters " +
+		"{pass, hide-all, some (keys containing 2), role (header X-Verif-Role via the context function: admin sees all, guest / no header nothing)}, every initialize by its own caller (guest, admin, guest again, none, …), raw and through the public clients (WithHTTPHeaders), " +
+		"list answers cross-checked per caller; non-trivial = a history in which the filter hides a registered entry from an initializing caller. " +
 		"client: call histories over {Initialize x (ok, network error, HTTP 500, JSON-RPC error, unparsable result, undeliverable initialized notification), the six request operations (answered ok / with an error), " +
 		"SendRootsListChangedNotification, SendInitialized, TerminateSession, RestartProcess, Close} on mcp.NewClient, mcp.NewSSEClient (every HTTP round trip recorded at the RoundTripper) and mcp.NewStdioClient " +
 		"(every line recorded by the child process): every history of length 3 over a reduced alphabet, every request operation after every prefix of length <= 2, seeded random longer ones; " +
-		"non-trivial = a history with a successful handshake and at least one refused call",
+		"non-trivial = a history with a successful handshake and at least one refused call; " +
+		"Close under a fault on every client kind (stdio: the child was killed and reaped first, so the transport's close() reports an error; streamable / legacy SSE: the server is gone while Close runs; " +
+		"legacy SSE: the server ended the event stream first): 7-12 fixed histories per environment (handshake, faulted Close, every operation, new handshake; double Close; Close on a fresh client; with RestartProcess / TerminateSession / SendInitialized) " +
+		"and seeded random ones; the Close event of the model line carries whether the transport's close() reported an error",
 		Run: run})
 }
 
@@ -48,5 +54,11 @@ func run(c *hk.Ctx) {
 	t0 = time.Now()
 	runConcurrentPhase(c)
 	timing["concurrent_s"] = time.Since(t0).Seconds()
+	t0 = time.Now()
+	runFilteredPhase(c)
+	timing["filtered_s"] = time.Since(t0).Seconds()
+	t0 = time.Now()
+	runCloseFaultPhase(c)
+	timing["close_fault_s"] = time.Since(t0).Seconds()
 	c.SetExtra("timing", timing)
 }
